@@ -53,7 +53,7 @@ def _extensions(spec, deps):
 
 @st.composite
 def _cases(draw):
-    u = draw(gen.universes())
+    u = draw(gen.universes(ext_new_forms=True))
     docs = u['lexicons']
     specs = [gen.spec_of(d) for d in docs]
     deps = gen.universe_deps(docs)
@@ -336,7 +336,7 @@ def _sample(case):
 
 @st.composite
 def _history_cases(draw):
-    u = draw(gen.universes())
+    u = draw(gen.universes(ext_new_forms=True))
     specs = [gen.spec_of(d) for d in u['lexicons']]
     deps = gen.universe_deps(u['lexicons'])
     exts = [s_ for s_ in specs if deps.get(s_)]
